@@ -1,14 +1,15 @@
 from cfg.common import FLOAT_ASSUMPTION, NOTE_COMMON
+from cfg.kernels_pre import regen as regen_kernels, KERNEL_THEOREMS, KERNEL_TRUSTED, KERNEL_ASSUMPTION
 from cfg.train_kernels_pre import (regen as regen_train_kernels, TRAIN_KERNEL_THEOREMS_FOR, TRAIN_KERNEL_TRUSTED,
                                    TRAIN_KERNEL_ASSUMPTION)
 
 PROP = {
     'anchors': [('track/path_track/speed_point.rs', 'insert_speed'), ('track/path_track/path_tpc.rs', 'add_speeds'), ('track/path_track/path_tpc.rs', 'extend'), ('train/braking_point.rs', 'calc_speeds'), ('train/braking_point.rs', 'recalc'), ('train/speed_limit_train_sim.rs', 'solve_required_pwr'), ('train/speed_limit_train_sim.rs', 'solve_step'), ('train/speed_limit_train_sim.rs', 'walk_internal'), ('train/speed_limit_train_sim.rs', 'extend_path'), ('train/friction_brakes.rs', 'set_cur_force_max_out')],
     'blocks': ['train'],
-    'pre': [regen_train_kernels],
-    'trusted_extra': [TRAIN_KERNEL_TRUSTED],
-    'proof_modules': ['C03', 'TrainKernels'],
-    'namespaces': ['Altrios.Proofs.C03', 'Altrios.Proofs.TrainKernels'],
+    'pre': [regen_train_kernels, regen_kernels],
+    'trusted_extra': [TRAIN_KERNEL_TRUSTED, KERNEL_TRUSTED],
+    'proof_modules': ['C03', 'TrainKernels', 'Kernels'],
+    'namespaces': ['Altrios.Proofs.C03', 'Altrios.Proofs.TrainKernels', 'Altrios.Proofs.Kernels'],
     'required_theorems': [
         'Altrios.Proofs.C03.C03_calcSpeeds_spec',
         'Altrios.Proofs.C03.C03_calcSpeeds_safe',
@@ -34,7 +35,7 @@ PROP = {
         'Altrios.Proofs.C03.C03_recalc_establishes_pre',
         'Altrios.Proofs.C03.C03_never_overspeeds_counterexample',
         'Altrios.Proofs.C03.C03_never_reverses_counterexample',
-    ] + TRAIN_KERNEL_THEOREMS_FOR['C03'],
+    ] + TRAIN_KERNEL_THEOREMS_FOR['C03'] + KERNEL_THEOREMS,
     'nontrivial_stats': ['train.sl.step_ok'],
     'rule': 'each evaluation is one real speed-limited step (whole solve_step, solve_required_pwr, calc_speeds, friction brake) '
             'on generated routes (grades to 1.2 %, restriction patterns incl. short faster windows), path supplied whole, link by '
@@ -44,7 +45,7 @@ PROP = {
     'assumptions': [FLOAT_ASSUMPTION,
                     'PARTIAL: the closed-loop claim (no overspeed / no panic / termination for all tracks) is searched by the '
                     'oracle, not proved; proved are the ingredients listed in the level text',
-                    'sqrt is a parameter of the model (Float.sqrt in the driver; correctly rounded on both sides)'] + [TRAIN_KERNEL_ASSUMPTION],
+                    'sqrt is a parameter of the model (Float.sqrt in the driver; correctly rounded on both sides)'] + [TRAIN_KERNEL_ASSUMPTION, KERNEL_ASSUMPTION],
 }
 
 TEXT = {
